@@ -112,7 +112,7 @@ impl<T> VecDeque<T> {
     }
 
     pub fn iter(&self) -> Iter<'_, T> {
-        Iter { d: self, i: 0 }
+        Iter { d: self, i: 0, calls: 0 }
     }
 
     pub fn make_contiguous(&mut self) -> &mut [T] {
@@ -135,12 +135,20 @@ pub fn deque_from_parts<T: Copy + Default>(items: &[T], split: usize) -> VecDequ
 pub struct Iter<'a, T> {
     d: &'a VecDeque<T>,
     i: usize,
+    /// number of `next` calls so far. It advances on every call whatever the (symbolic) position, so it
+    /// stays concrete during symbolic execution: after len + 1 calls the iterator is certainly exhausted,
+    /// which lets CBMC stop unrolling the caller's loop after len + 2 iterations instead of the unwind bound.
+    calls: usize,
 }
 
 impl<'a, T> Iterator for Iter<'a, T> {
     type Item = &'a T;
 
     fn next(&mut self) -> Option<&'a T> {
+        if self.calls > self.d.len {
+            return None;
+        }
+        self.calls += 1;
         let r = self.d.get(self.i);
         if r.is_some() {
             self.i += 1;
